@@ -944,10 +944,17 @@ def check_inserted(vk, cfg, label, mesh, new, kinds):
             want = [centroid(P0, [cell[a] for a in e]) for e in ent[k]]
             got = [new.points[p] for p in new.cells[c, col : col + width]]
             nm = label + f"/{k}/cell={c}/inserted-points-are-the-centroids-of-all-{k}"
-            if same_point_sets(vk, got, want):
-                vk.ensures_true(nm, True, f"{width} points matched one-to-one")
-            else:  # state the clause in the reference order of the entities: refuted with a replayable residual
-                vk.ensures_eq(nm, np.array(got), np.array(want))
+            # one-to-one matching of the inserted points with the entities; stated entity by entity (if no
+            # matching exists: in the reference order of the entities -> refuted with a replayable residual)
+            order, free = [], list(range(width))
+            for w in want:
+                hit = [j for j in free if rows_equal(vk, got[j], w)]
+                if not hit:
+                    order = list(range(width))
+                    break
+                order.append(hit[0])
+                free.remove(hit[0])
+            vk.ensures_eq(nm, np.array([got[j] for j in order]), np.array(want))
         col += width
     # shared entities get one point: number of new points == number of distinct entities in the mesh
     distinct = sum(len({frozenset(cell[a] for a in e) for cell in C0 for e in ent[k]}) for k in kinds)
@@ -985,7 +992,8 @@ STRUCT_CFG = (
     + [dict(op="disconnect", ct=ct) for ct in ("triangle", "quad", "tetra", "hexahedron")]
     + [dict(op="dual", ct=ct, variant=v) for ct in ("quad", "tetra") for v in ("plain", "connected-offset", "npoints")]
     + [dict(op="merge", ct="quad", order=o) for o in ("A", "B")]
-    + [dict(op="merge", ct="triangle", order="A"), dict(op="merge", ct="container", order="A")]
+    + [dict(op="merge", ct="triangle", order="A"), dict(op="merge", ct="container", order="A"), dict(op="merge", ct="tetra", order="A"), dict(op="merge", ct="tetra", order="B")]
+    + [dict(op="merge", ct="hexahedron", order=o) for o in ("A", "B")]
 )
 
 
@@ -1136,8 +1144,8 @@ def merge(vk, cfg):
     ref, conn = two_cell_reference(base_ct, 2)
     shear = {"A": 0.3, "B": -0.3}[order]
     near = ref.copy()
-    near[:, 0] = near[:, 0] + shear * near[:, 1]
-    P = vk.reals("X", near.shape, near=near, spread=0.1)
+    near[:, 0] = near[:, 0] + shear * near[:, 1] + (0.17 * near[:, 2] if near.shape[1] == 3 else 0.0)
+    P = vk.reals("X", near.shape, near=near, spread=0.1 if near.shape[1] == 2 else 0.05)
     assume_valid(vk, base_ct, P, conn)
     chain = list(np.argsort(near[:, 0]))
     for i in range(len(chain)):
